@@ -55,6 +55,7 @@ def run(F, chk):
             else:
                 rb.violation(key, diff.where(), "ConfigState::diff never constructs RequestType::%s, the %s verb for objects created by %s" % (need, why, V))
     sort_order_rule(F, chk)
+    whole_listener_comparison_rule(F, chk)
     # ---------------- R-C06-c --------------------------------------------------
     rc = chk.rule("R-C06-c", "T12", "the key pairing backends across the two states contains id and address", floor=2)
     n = 0
@@ -107,3 +108,44 @@ def sort_order_rule(F, chk):
         r.ok(key, b.where(), "comparison chain: %s" % order)
     else:
         r.violation(key, b.where(), "Backend::cmp compares %s: (cluster_id, backend_id) is no longer a prefix of the order in which ConfigState keeps backends sorted, so diff's merge-join over (cluster_id, backend_id) mis-pairs backends" % order)
+
+
+def whole_listener_comparison_rule(F, chk):
+    """R-C06-e: for a listener present in both states diff decides `unchanged` with one equality test.  Whatever that
+    test ignores is a difference diff cannot see, so (necessary condition of diff(A,B) empty => A == B) each of the four
+    listener classes is compared as a whole value taken from the two states: a PartialEq::eq/ne on the class's config
+    type whose operands are not locally modified copies (no field of an operand is overwritten before the comparison)."""
+    r = chk.rule("R-C06-e", "T12", "listeners are compared as whole, unmodified values", floor=4)
+    CLASSES = ("HttpListenerConfig", "HttpsListenerConfig", "TcpListenerConfig", "UdpListenerConfig")
+    seen = {}
+    fns = cover.reach_functions(F, STATE + "::diff", depth=1)
+    for p in fns:
+        b = F.body(p)
+        for bi, t in b.calls():
+            fn = t.get("fn") or ""
+            if not (fn.endswith("PartialEq::ne") or fn.endswith("PartialEq::eq")):
+                continue
+            ty = (t.get("recv") or "").lstrip("&").rsplit("::", 1)[-1]
+            if ty not in CLASSES:
+                continue
+            r.fn(p)
+            # operands that were built here and had a field overwritten
+            modified = []
+            for a in t["args"]:
+                for l in sorted(guards.slice_of_operand(b, a)["locals"]):
+                    if b.locals[l].lstrip("&").endswith(ty) and any(d[2] == "partial" and "lhs" in d[3] and proj_fields(d[3]["lhs"]) for d in b.defs().get(l, [])):
+                        flds = sorted({proj_fields(d[3]["lhs"])[-1][2] for d in b.defs().get(l, []) if d[2] == "partial" and "lhs" in d[3] and proj_fields(d[3]["lhs"])})
+                        modified.append((l, flds))
+            seen.setdefault(ty, []).append((b, bi, modified))
+    for ty in CLASSES:
+        key = "%s compared whole" % ty
+        sites = seen.get(ty, [])
+        if not sites:
+            r.violation(key, F.body(STATE + "::diff").where(), "diff no longer compares two %s values as a whole: a change in a field it does not look at produces no request" % ty)
+            continue
+        bad = [(b, bi, m) for b, bi, m in sites if m]
+        if bad:
+            b, bi, m = bad[0]
+            r.violation(key, b.where(bi), "diff compares a locally modified copy of the %s (field(s) %s overwritten before the test): a listener that differs only in %s is reported as unchanged and no request is emitted for it" % (ty, m[0][1], m[0][1]))
+        else:
+            r.ok(key, sites[0][0].where(sites[0][1]), "%d whole-value comparison(s), operands unmodified" % len(sites))
